@@ -325,7 +325,10 @@ def build(case):
             R2 = nodes[reps[(reps.index(case["r"]) + 1) % len(reps)]]["name"]
             cells = {"calculation": f"indexed-repeat(${{{t}}}, ${{{R}}}, ${{{u}}})",
                      "relevant": f"indexed-repeat(${{{t}}}, ${{{R}}}, 1, ${{{R2}}}, ${{{u}}}) = 1",
-                     "constraint": f"indexed-repeat(${{{t}}}, ${{{R}}}, 1) = ${{{u}}}"}
+                     "constraint": f"indexed-repeat(${{{t}}}, ${{{R}}}, 1) = ${{{u}}}",
+                     # two calls in one expression, then a plain reference after them
+                     "required": f"indexed-repeat(${{{t}}}, ${{{R}}}, 1) + indexed-repeat(${{{u}}}, ${{{R}}}, 2) > ${{{t}}}",
+                     "read_only": f"${{{u}}} = 1 or indexed-repeat(${{{t}}}, ${{{R}}}, ${{{u}}}) = indexed-repeat(${{{t}}}, ${{{R}}}, 3) or ${{{u}}} = 2"}
         elif shape == "instpred":
             cells = {"calculation": f"instance('c')/root/item[name = ${{{t}}}]/label",
                      "label": f"L instance('c')/root/item[name = ${{{t}}}]/label l",
